@@ -333,6 +333,21 @@ def check(case, ctx):
             b = subprocess.run([cli, '-t', fmt], input=exp_cli.encode('utf-8', 'surrogateescape'), stdout=subprocess.PIPE, stderr=subprocess.PIPE, env=env, timeout=120)
             if a.returncode != 0 or a.stdout != b.stdout:
                 raise Violation('cli:render', 'fmt=%s rc=%d\nfile: %r\nstdin: %r' % (fmt, a.returncode, a.stdout[-600:], b.stdout[-600:]))
+            # the batch route, with the bare file name from inside its folder (the including file's folder is then the empty string)
+            if fmt in ('html', 'latex'):
+                bn = os.path.basename(top_path)
+                outp = os.path.join(top_dir, (bn[:bn.rindex('.')] if '.' in bn else bn) + {'html': '.html', 'latex': '.tex'}[fmt])
+                prior = open(outp, 'rb').read() if os.path.exists(outp) else None
+                c = subprocess.run([cli, '-b', '-t', fmt, bn], stdout=subprocess.PIPE, stderr=subprocess.PIPE, env=env, cwd=top_dir, timeout=120)
+                got = open(outp, 'rb').read() if os.path.exists(outp) else None
+                if prior is None:
+                    if got is not None:
+                        os.unlink(outp)
+                else:
+                    open(outp, 'wb').write(prior)
+                if c.returncode != 0 or got != b.stdout:
+                    raise Violation('cli:render:-b', 'fmt=%s rc=%d bare name %r in its folder\n-b: %r\nstdin: %r' % (fmt, c.returncode, bn, (got or b'')[-600:], b.stdout[-600:]))
+                ctx.cls('cli_batch_leg_checked')
         ctx.cls('cli_leg_checked')
 
 
